@@ -15,7 +15,8 @@ RULE = ('cases = sequences of 1-8 steps (built-in field/row/resource steps and r
         'distinct = distinct case digest'
         '; round 4: sources optionally carry a column that is null throughout the 100-row inference sample and typed later (stepwise run fed lists, chained run fed generators)'
         '; round 7: rows steps that pass twice over a resource (zero rows included), row callables that return a replacement for some rows only, and every case also read after all resources were taken from the stream'
-        '; round 8: the in-line source link itself: dict rows with varying key order and missing keys, as list, tuple and generator, described by the keys of the first row and the values of each column by name')
+        '; round 8: the in-line source link itself: dict rows with varying key order and missing keys, as list, tuple and generator, described by the keys of the first row and the values of each column by name'
+        '; round 9: in-line sources with 150 further columns (the sample is 100 rows whatever the width)')
 TRUSTED = ['Coq 8.16.1 kernel + vm_compute', 'harness/p01.py step builders and oracle',
            'Python generator laziness is modelled as function composition on event lists (validated by the trace correspondence of C04-C06)']
 ASSUMES = ['steps are deterministic and user callables do not keep state across runs']
